@@ -1058,6 +1058,11 @@ impl FlexScen {
         let executor = match rng.below(10) {
             0..=5 => "-".to_string(),
             6 | 7 => "member".to_string(),
+            8 if rng.chance(1, 2) => {
+                // an executor address that is not a normalised address of this chain (upper case, a name): it is stored
+                // as given, nobody can ever execute — in particular the restriction does not silently disappear
+                if rng.chance(1, 2) { format!("only:{}", rng.pick(&self.pool).as_str().to_uppercase()) } else { "only:treasurer".to_string() }
+            }
             _ => format!("only:{}", rng.pick(&self.pool)),
         };
         let amt = if rng.chance(1, 15) { 0 } else { 1 + rng.below(6) };
